@@ -124,8 +124,12 @@ def run(chk, repo):
     ok = len(loops) == 1
     if ok:
         lb = loops[0].body
+        w0 = unparse(lb[0]) if lb else ""
+        # the empty list ends the loop: either IndexError -> break, or an emptiness test -> break, under the lock
+        ends = ("except IndexError:\n        break" in w0) or ("if not self._threads:\n        break" in w0) \
+            or ("if len(self._threads) == 0:\n        break" in w0)
         ok = len(lb) == 3 and isinstance(lb[0], ast.With) and unparse(lb[0].items[0].context_expr) == "self.lock" \
-            and "thread = self._threads[0]" in unparse(lb[0]) and "except IndexError:\n        break" in unparse(lb[0]) \
+            and "thread = self._threads[0]" in w0 and ends \
             and unparse(lb[1]) == "if not self.wait:\n    thread.stop()" and unparse(lb[2]) == "thread.join()"
     chk.decide(ok, "C17.close", W("AudioIO.close"), "for every listed thread: stop unless wait, then join",
                why="every player must be stopped (when not waiting) and joined before the backend is terminated", node=close)
